@@ -962,7 +962,9 @@ def run_group(ctx, kinds):
         tq, tt = BUDGET[kind]
         pts = lattice([kind], bounds, quick, ctx.seed)
         ctx.extra.setdefault("lattice_points", {})[kind] = len(pts)
-        ctx.explore(kind, make_gen(pts, lo_it, hi_it), rc, ctx.n(len(pts), len(pts)), nontrivial=nontrivial,
+        # quick: one pass over the lattice; thorough: three passes (fresh batch sizes, seeds, sigmas and operation
+        # lists on every visit of a lattice point), as far as the stratum's time budget allows
+        ctx.explore(kind, make_gen(pts, lo_it, hi_it), rc, ctx.n(len(pts), 3 * len(pts)), nontrivial=nontrivial,
                     time_budget=tq if quick else tt)
 
 
